@@ -485,6 +485,11 @@ class AsyncMachine(Machine):
                         raise
         return False
 
+    async def _get_trigger(self, model, trigger_name, *args, **kwargs):
+        # the base implementation returns either an awaitable (known event) or a plain False (ignored unknown event)
+        res = super()._get_trigger(model, trigger_name, *args, **kwargs)
+        return await res if inspect.isawaitable(res) else res
+
     def _process(self, trigger):
         raise RuntimeError("AsyncMachine should not call `Machine._process`. Use `Machine._process_async` instead.")
 
